@@ -239,6 +239,20 @@ impl Loader {
     }
 }
 
+/// Verification hooks: read access to the loader's private results.
+#[cfg(n2_verif)]
+impl Loader {
+    pub fn verif_defaults(&self) -> &[FileId] {
+        &self.default
+    }
+    pub fn verif_pools(&self) -> Vec<(String, usize)> {
+        self.pools.iter().cloned().collect()
+    }
+    pub fn verif_builddir(&self) -> Option<String> {
+        self.builddir.clone()
+    }
+}
+
 /// State loaded by read().
 pub struct State {
     pub graph: graph::Graph,
